@@ -42,10 +42,22 @@ def plan(ctx):
         exh += g.exhaustive_small(eng, maxlen=ml)
     exh += g.exhaustive_merge(caps=(2, 3), suffix=2) if tier == "quick" else g.exhaustive_merge(caps=(1, 2, 3, 4), suffix=2, slack=(-1, 0, 1))
     batches.append(("exhaustive", exh))
+    # the three trace pools as a transaction reaches them (IsKeeper + AddTxnTrace through AggregateInto), on the real Processor
+    from checks import gen_proc
+    batches.append(("proc", [("trh%d" % i, gen_proc.traces_history(rng)) for i in range(12 if tier == "quick" else 500)]))
     return batches
 
 
+def run(ctx, bname, seqs):
+    if seqs and seqs[0][1] and seqs[0][1][0].startswith("proc "):
+        from checks import proc_common as pc
+        return pc.run_proc(ctx, bname, seqs, ("C06",))
+    return vlib.run_sequences(seqs, ctx["work"], tag=bname)
+
+
 def tags(r):
+    if r.ops and r.ops[0].startswith("proc "):
+        return {"proc:traces"}
     t = set()
     eng = r.ops[0].split()[0] if r.ops else "?"
     t.add("engine:" + eng)
